@@ -213,7 +213,7 @@ CLAIMED = {
         "Lean 4 theorems (printer/parser round trips by induction) + regenerated name/dispatch table + text-level correspondence",
         "DESIGN.md §5 C03"),
     "C11": (
-        "PARTIAL (per-puzzle; the evidence file lists the status of each of the 26 modules, measured on each run). Kernel-checked: "
+        "Per puzzle (the evidence file lists the status of each of the 26 modules, measured on each run; at the time of writing 25 of 26 have status theorem, shakashaka is model + differential). Kernel-checked: "
         "C11_compose (if the program posted by a solve_<puzzle> encodes the rules R -- an answer grid extends to a model of the whole "
         "program incl. hidden variables iff it obeys R -- then for every correct backend the solver reports a solution iff a "
         "rule-obeying grid exists and its decided cells are exactly the cells on which all rule-obeying grids agree), and per puzzle "
@@ -222,14 +222,43 @@ CLAIMED = {
         "regardless of proof status: (a) program correspondence -- the program posted by the real solve_<p> (recording Solver "
         "substituted in the module) equals the Lean model's program (declarations, constraint multiset, answer keys) on random small "
         "instances; (b) rule differential -- real solve_<p> through z3 vs exact facts by brute force over all answer grids with an "
-        "independent plain-Python rule checker. yinyang, castle_wall and shakashaka rest on planar arguments and stay at model + "
-        "differential.",
+        "independent plain-Python rule checker. The planar puzzles yinyang and castle_wall are proved (lattice-cycle / ray-parity arguments); shakashaka ("
+        "white areas are rectangles) is not.",
         "Relative to a correct backend. Trusted: Lean kernel + standard axioms; the rule specs (Spec/PuzzleRules/*.lean) and the Python "
         "rule checkers, written from the published rule texts (adopted readings are marked READING: in the modules: nurikabe needs a "
         "sea cell, aquarium levels per touching cells, empty loop allowed); hand-written program models tied by program equality; "
         "puzzles without a theorem are covered only by the bounded differential on small boards.",
         "Lean 4 theorems (composition + per-puzzle encodes-rules) + program-equality correspondence + bounded rule differential",
         "DESIGN.md §5 C11"),
+    "C15": (
+        "Kernel-checked theorems over the model of problem_serializer.py: C15_leaves_local (every leaf combinator -- FixStr, Dict, "
+        "Spaces, DecInt (under 'next character is not a digit'), HexInt, IntSpaces, MultiDigit -- decodes what it emitted, in any "
+        "context, consuming exactly the produced characters), C15_composition (locality preserved by Seq, Grid with explicit "
+        "dimensions >= 0, Tupl, and OneOf under the decidable Distinguishable side condition), C15_roundtrip (for every well-formed "
+        "problem-level term, every board size and every value in its domain: deserialize_problem(serialize_problem(v)) = v), "
+        "C15_seq_terminates, C15_borders_roundtrip, C15_rooms and C15_valued_rooms (all h,w >= 1, rooms and cells in ANY order: the "
+        "decoded partition is the canonical form, values stay attached to their rooms; includes flood-fill correctness), "
+        "C15_puzzles_wf (the REGENERATED puzzle combinators are well-formed terms). Tie: random combinator terms and values through "
+        "the real classes vs the model (outcome kinds included), regenerated puzzle combinator table.",
+        "Trusted: Lean kernel + standard axioms; hand-written model of the combinator classes tied by correspondence; strings "
+        "modelled as lists of Unicode scalar values (lone surrogates excluded); degenerate terms whose Seq base can succeed without "
+        "consuming or producing anything loop forever in Python and are excluded by `wf` (recorded as a termination observation).",
+        "Lean 4 theorems (structural induction on combinator terms, flood-fill invariant) + differential correspondence",
+        "DESIGN.md §5 C15"),
+    "C17": (
+        "Kernel-checked theorems: C17_total (for every combinator term and EVERY string, deserialize returns a value, None, or raises "
+        "ValueError -- never IndexError/KeyError/AssertionError/TypeError/RecursionError), C17_total_problem (deserialize_problem: "
+        "None, ValueError or a problem of the stated dimensions), C17_total_url (deserialize_problem_as_url with any allowed_puzzles / "
+        "allow_failure / return_size on ANY string, and get_puzzle_info_from_url), C17_total_puzzles (every regenerated puzzle codec), "
+        "C17_reencodable_puzzles (for the grid puzzle codecs: whenever a problem is returned, serializing it succeeds and decoding "
+        "that text returns the same problem) and C17_reencodable_partial (Grid/Seq over flat bases). The full re-encodability "
+        "statement for arbitrary terms (statement_reencodable) is stated, not proved. Tie: structured (valid encoding + one mutation) "
+        "and malformed (random URL-alphabet / Unicode strings, dims 0..70) streams through every real codec vs the model, outcome "
+        "kinds compared one by one; Unicode digit table regenerated from the running CPython.",
+        "Trusted: Lean kernel + standard axioms; model of str.isdigit/int() via the regenerated Unicode digit table; the regex as a "
+        "hand-written matcher (validated against `re`); re-encodability for Rooms-based codecs rests on the correspondence.",
+        "Lean 4 theorems (totality by structural induction, partial re-encodability) + differential correspondence on malformed input",
+        "DESIGN.md §5 C17"),
 }
 
 NOT_YET = "machinery for this property is still under construction in this round (model/theorems not yet committed)"
